@@ -56,7 +56,7 @@ type emission struct {
 }
 
 func c13(c *wk.Ctx) {
-	c.Note("rule", "each plan: a Probe object with signals tick and other; one emitter calls the generated helper with n = 0,1,2,... (each emission bracketed by logical-clock stamps) and interleaves emissions of the other signal; subscribers use the generated SubscribeTick on the same proxy, on other proxies of the same session, on other sessions, plus a raw connection doing registerEvent / unregisterEvent itself; a PRNG sequence of subscribe / cancel / emit-burst steps includes the tight schedules (two goroutines subscribing on one proxy at once with an emission right after the first returns; cancel of the last subscriber racing a new subscribe). Flow control keeps unconsumed emissions far below the 100-slot client queue. Oracle per subscriber: strictly increasing tick values only, every k emitted entirely between its acknowledgement and its cancel request is received ('missing' decided by the quiescence detector), channel closed after cancel; raw connection: no event for a registration after the unregister reply (barrier call). Stream bulk: 150-550 events of 5-60 KiB reach a subscriber while, on the same connection, another signal is subscribed to and cancelled over and over and a method is called (acknowledgements and replies are written between the events): every event arrives once, in order, with its payload, and the channel stays open until the cancel. Distinct non-trivial = distinct plans with at least two subscribers that each had to receive at least one emission.")
+	c.Note("rule", "each plan: a Probe object with signals tick and other; one emitter calls the generated helper with n = 0,1,2,... (each emission bracketed by logical-clock stamps) and interleaves emissions of the other signal; subscribers use the generated SubscribeTick on the same proxy, on other proxies of the same session, on other sessions, plus a raw connection doing registerEvent / unregisterEvent itself; a PRNG sequence of subscribe / cancel / emit-burst steps includes the tight schedules (two goroutines subscribing on one proxy at once with an emission right after the first returns; cancel of the last subscriber racing a new subscribe). Flow control keeps unconsumed emissions far below the 100-slot client queue. Oracle per subscriber: strictly increasing tick values only, every k emitted entirely between its acknowledgement and its cancel request is received ('missing' decided by the quiescence detector), channel closed after cancel; raw connection: no event for a registration after the unregister reply (barrier call). Stream faulty-link (shared with C14): 2-5 subscribers of the signal tick (and of the property) on own connections to a stand-alone server behind a harness listener; the link towards one of them refuses writes, or stalls in the middle of a fan-out while a later subscriber cancels: every other subscriber receives every emission once, in order. Stream bulk: 150-550 events of 5-60 KiB reach a subscriber while, on the same connection, another signal is subscribed to and cancelled over and over and a method is called (acknowledgements and replies are written between the events): every event arrives once, in order, with its payload, and the channel stays open until the cancel. Distinct non-trivial = distinct plans with at least two subscribers that each had to receive at least one emission.")
 	var w *world
 	defer func() {
 		if w != nil {
@@ -80,6 +80,8 @@ func c13(c *wk.Ctx) {
 		n++
 		c13one(c, i, rng, w, fmt.Sprintf("S%d", n))
 	})
+	// the sequential faulty-link stream of C14 also covers the signal tick (see c14faulty)
+	c.Cases("faulty-link", c.Pick(120, 6000), func(i int, rng *rand.Rand) { c14faulty(c, i, rng) })
 	c.Cases("bulk", c.Pick(24, 600), func(i int, rng *rand.Rand) { c13bulk(c, i, rng) })
 }
 
